@@ -52,7 +52,12 @@ def check(ctx):
         tmpname = pseudo(a)
         vals = [a] if not tmpname else [v for v in facts.values_of(tmpname)
                                         if not (isinstance(v, ast.Constant) and v.value is None)]
-        ok = bool(vals) and all(isinstance(v, ast.BinOp) and isinstance(v.op, ast.Add) and pseudo(v.left) == param
+        def is_final(nm):
+            if nm == param:
+                return True
+            vs = [v for v in facts.assigns.get(nm or '', []) if not (isinstance(v, ast.Constant) and v.value is None)]
+            return len(vs) == 1 and pseudo(vs[0]) == param
+        ok = bool(vals) and all(isinstance(v, ast.BinOp) and isinstance(v.op, ast.Add) and is_final(pseudo(v.left))
                                 and pseudo(v.right) == 'ACTIVE_SUFFIX' for v in vals)
         run.check(ok, 'TMP', where(repo, n), st.qualname, 'open(%s) with %s = %s' % (u(a), u(a), [u(v) for v in vals]),
                   'the file opened for writing is not <final name> + ACTIVE_SUFFIX')
@@ -69,6 +74,16 @@ def check(ctx):
         if isinstance(dst, ast.Subscript) and pseudo(dst.value) == tmpname and isinstance(dst.slice, ast.Slice) \
                 and dst.slice.lower is None and dst.slice.upper is not None and u(dst.slice.upper) == '-len(ACTIVE_SUFFIX)':
             okd = True
+        # or: the very name the temp name was built from (<final> + ACTIVE_SUFFIX), kept in a variable that is not rebound later
+        if pseudo(dst) is not None:
+            bases = [pseudo(v.left) for v in facts.values_of(tmpname or '') if isinstance(v, ast.BinOp)]
+            finals = set()
+            for b_ in bases:
+                finals.add(b_)
+            dvals = [v for v in facts.assigns.get(pseudo(dst), []) if not (isinstance(v, ast.Constant) and v.value is None)]
+            if pseudo(dst) in finals and (len(dvals) == 1 and pseudo(dvals[0]) == param or pseudo(dst) == param):
+                # `param` itself is rebound to the file object by open(): only a copy taken before that is the final name
+                okd = pseudo(dst) != param
         run.check(ok and okd, 'TMP', where(repo, n), st.qualname, n,
                   'the rename does not turn exactly the temp file into <temp name minus suffix>')
         # guarded only by "a file name was given"
